@@ -275,6 +275,51 @@ func indexSafe(at ssa.Instruction, slice, idx ssa.Value, baseMin int64) (bool, s
 			}
 		}
 	}
+	// rotated loops (for i := range n): the index is a phi whose every incoming value is
+	// bounded on its own edge
+	if phi, ok := idx.(*ssa.Phi); ok && len(phi.Edges) > 0 {
+		tied := func(R ssa.Value) bool {
+			if s2, ok := lenOf(R); ok && sameVal(s2, slice) {
+				return true
+			}
+			for _, e := range eqTo {
+				if e != nil && sameVal(e, R) {
+					return true
+				}
+			}
+			return false
+		}
+		all := true
+		for i, e := range phi.Edges {
+			pred := phi.Block().Preds[i]
+			okEdge := false
+			for _, cf := range edgeConds(pred, phi.Block()) {
+				bo, ok := cf.Cond.(*ssa.BinOp)
+				if !ok {
+					continue
+				}
+				op, L, R := bo.Op, bo.X, bo.Y
+				if !cf.True {
+					op = negate(op)
+				}
+				if op == token.GTR {
+					op, L, R = token.LSS, R, L
+				}
+				if op != token.LSS {
+					continue
+				}
+				if (L == e || sameVal(L, e)) && tied(R) {
+					okEdge = true
+				}
+			}
+			if !okEdge {
+				all = false
+			}
+		}
+		if all {
+			return true, "every value of the loop index is tested against a bound tied to this slice's length"
+		}
+	}
 	return false, "variable index without a dominating bound tied to this slice's length"
 }
 
@@ -298,11 +343,20 @@ func itoa(n int64) string {
 }
 
 // paramLowerBound: smallest value parameter v can have: the constant passed at call site ctx,
-// or the minimum over all (constant) arguments at the static call sites of its function.
+// or the minimum over all arguments at the static call sites of its function (arguments that
+// are themselves parameters are bounded the same way).
 func paramLowerBound(v ssa.Value, ctx *ssa.Call) (int64, bool) {
+	return intLowerBound(v, ctx, 0)
+}
+
+func intLowerBound(v ssa.Value, ctx *ssa.Call, depth int) (int64, bool) {
+	v = stripConvInt(v)
+	if k, ok := constInt(v); ok {
+		return k, true
+	}
 	prm, ok := v.(*ssa.Parameter)
 	p := theProg
-	if !ok || p == nil {
+	if !ok || p == nil || depth > 4 {
 		return 0, false
 	}
 	fn := prm.Parent()
@@ -316,7 +370,7 @@ func paramLowerBound(v ssa.Value, ctx *ssa.Call) (int64, bool) {
 		return 0, false
 	}
 	if ctx != nil && p.unbound(staticCallee(ctx)) == fn && idx < len(ctx.Common().Args) {
-		return constInt(stripConvInt(ctx.Common().Args[idx]))
+		return intLowerBound(ctx.Common().Args[idx], nil, depth+1)
 	}
 	sites := p.callers[fn]
 	if len(sites) == 0 || p.asyncValueUsed(fn) {
@@ -327,7 +381,7 @@ func paramLowerBound(v ssa.Value, ctx *ssa.Call) (int64, bool) {
 		if idx >= len(s.Common().Args) {
 			return 0, false
 		}
-		k, ok := constInt(stripConvInt(s.Common().Args[idx]))
+		k, ok := intLowerBound(s.Common().Args[idx], nil, depth+1)
 		if !ok {
 			return 0, false
 		}
